@@ -538,5 +538,56 @@ def _classify_source(repo, func, cfg, flow, node, v, seq):
     return None
 
 
+def rule_k8(repo):
+    """Term.subst extends inst.tyinst from the schematic variables of the term it is applied to.  A rule
+    that applies it to several terms of one sequent must determine the type instantiation from all of
+    them before it instantiates any, or hypotheses and proposition get different type instantiations."""
+    res = RuleResult('C01.K8', 'the substitution rule fixes one type instantiation for the whole sequent before instantiating any of its terms', floor=1)
+    func = repo.func(THM, 'Thm.substitution')
+    cfg = cfg_of(func.node)
+    inst, th = func.params()[:2]
+    # does Term.subst still extend the instantiation it is given?
+    subst = repo.func(TERM, 'Term.subst')
+    sp = subst.params()[1]
+    mutates = any(isinstance(c, ast.Call) and call_attr(c) == 'match_incr' and any((path_of(a) or '').startswith(sp + '.') for a in c.args)
+                  for c in ast.walk(subst.node))
+    uses = [n for n in cfg.nodes if n.kind == 'stmt' and any(
+        isinstance(c, ast.Call) and call_attr(c) == 'subst' and c.args and is_name(c.args[0], inst) for c in ast.walk(n.ast)) and
+        isinstance(n.ast, (ast.Assign, ast.Return))]
+    need(uses, 'Thm.substitution: no call X.subst(%s) found' % inst)
+    if not mutates:
+        res.add('%s :: Thm.substitution :: one-type-instantiation' % THM, True,
+                'Term.subst does not extend the instantiation it is given', func.loc, nontrivial=False)
+        return res
+    # a loop over hypotheses *and* proposition that matches types (or calls subst) before the first result
+    prepasses = []
+    for it in cfg.nodes_of_kind('iter'):
+        paths = {path_of(x) for x in ast.walk(it.ast.iter) if isinstance(x, ast.Attribute)}
+        if th + '.hyps' in paths and th + '.prop' in paths and any(
+                isinstance(c, ast.Call) and (call_attr(c) == 'match_incr' or (call_attr(c) == 'subst' and c.args and is_name(c.args[0], inst)))
+                for s in it.ast.body for c in ast.walk(s)):
+            prepasses.append(it)
+    first = min(uses, key=lambda n: n.lineno)
+    ok = bool(prepasses) and all(cfg.dominates(p, first) for p in prepasses[:1]) and \
+        all(cfg.path_avoiding(u, skip_edges={(prepasses[0].id, 'done')}) is None for u in uses)
+    res.add('%s :: Thm.substitution :: one-type-instantiation' % THM, ok,
+            'the type instantiation is collected from hypotheses and proposition before any of them is instantiated' if ok else
+            'hypotheses and proposition are instantiated one by one while Term.subst still extends %s.tyinst from each term: a '
+            'hypothesis without the instantiated schematic variable keeps ?\'a while the proposition gets its instance' % inst, func.loc)
+    return res
+
+
+def rule_k9(repo):
+    """subst_bound is the engine of beta_conv and forall_elim: its memo must distinguish binder depths."""
+    from .c03 import rule_i5
+    r = rule_i5(repo)
+    res = RuleResult('C01.K9', 'memo tables of the substitution engine behind beta_conv / forall_elim are keyed by every parameter of the recursion', floor=1)
+    for i in r.instances:
+        if 'subst' in i.key:
+            res.add(i.key, i.ok, i.detail, i.loc)
+    return res
+
+
 def rules(repo):
-    return [rule_k1(repo), rule_k2(repo), rule_k3(repo), rule_k4(repo), rule_k5(repo), rule_k6(repo)]
+    return [rule_k1(repo), rule_k2(repo), rule_k3(repo), rule_k4(repo), rule_k5(repo), rule_k6(repo),
+            rule_k8(repo), rule_k9(repo)]
